@@ -74,3 +74,10 @@ def run(ctx):
         rest = rest[:info["index"] - 1] + rest[info["index"]:]
     for e in events[:3]:
         ctx.sample(e)
+    # socket-level tier: the real binary - -t reaches every request of a probe (servers that accept and stall), and with 16 workers against
+    # 64 distinct servers every record names the target its own probe talked to
+    from checks import wire_tier as wt
+    n3, rej = wt.run_wire(ctx, select=lambda s: s["name"] in ("elastic-timeout-flag", "docker-timeout-flag"), label="c10t", focus="time")
+    wt.report(ctx, "C10", rej)
+    n4, rej = wt.run_wire(ctx, select=lambda s: s["name"] in ("elastic-parallel", "docker-parallel", "elastic-redirect", "docker-redirect"), label="c10p", focus="coverage")
+    wt.report(ctx, "C10", rej)
